@@ -17,6 +17,13 @@ DENIED_NAMES = frozenset(["secret", "secret_m", "secret_call", "_priv", "_hidden
                           "state", "poke"])
 
 
+import typing  # noqa: F401,E402  (the serving process has `typing` imported, like most applications)
+ATextAlias = str          # module attributes of an imported module that ARE the plain types
+ABytesAlias = bytes
+AnIntAlias = int
+ATupleAlias = tuple
+
+
 class Hits:
     """what the direct oracle reads (filled by the canaries themselves, independent of the recorder)"""
     def __init__(self):
@@ -181,6 +188,20 @@ class Loud(Thing):
         raise SystemExit(3)
 
 
+VIEW_NAMES = ["x", "pub", "exposed_x", "state"]
+
+
+def illegitimate_writes(state_writes):
+    """state changes the service never allowed: everything except writes through the restricted views to the names their
+    own write lists name (`w1_target`: x; `rw_target`: every readable name)"""
+    bad = []
+    for tag, op, name in state_writes:
+        if op == "set" and ((tag == "w1_target" and name == "x") or (tag == "rw_target" and name in VIEW_NAMES)):
+            continue
+        bad.append((tag, op, name))
+    return bad
+
+
 def make_pool():
     # indices 13 and 14 are fetched only by the SECOND connection's peer (the service keeps them alive)
     return [Thing("t0"), Thing("t1"), Falsy("f2"), NoIter("n3"), Hooked("h4"), Loud("l5"), iter([1, 2, 3, 4, 5, 6]),
@@ -198,8 +219,20 @@ def canary_service():
         pub = 2
 
         def __init__(self):
+            from rpyc.utils.helpers import restricted
             self.pool = make_pool()
             self.state = 0
+            # "what the service exposes" includes views made by helpers.restricted(): read-only (wattrs=()), writable
+            # for one name, and the default (writable for every readable name)
+            names = ["x", "pub", "exposed_x", "state"]
+            self.view_targets = [Thing("ro_target"), Thing("w1_target"), Thing("rw_target"), Thing("ro2_target")]
+            self.views = [restricted(self.view_targets[0], names, wattrs=()),
+                          restricted(self.view_targets[1], names, wattrs=["x"]),
+                          restricted(self.view_targets[2], names),
+                          restricted(self.view_targets[3], set(names), wattrs=frozenset())]
+
+        def exposed_view(self, k):
+            return self.views[k]
 
         def on_disconnect(self, conn):
             r = rt.active(conn)
@@ -521,7 +554,10 @@ def model_core(line):
 INSPECT_NAMES = ["c07canmod_a.Boom", "c07canmod_b.X.Y", "c07canmod_a", "c07canmod_b.Boom", "sndhdr.X", "colorsys.X.Y", "chunk.Chunk",
                  "tabnanny.NannyNag", "os.system", "os.path.join", "json.decoder.JSONDecoder", "handlers_world.Thing", "canary.Foo",
                  "builtins.eval", "sys.modules", "x", "a.b.c.d", ".", "..x", "os.", ".os"]
-BUILTIN_NAMES = ["builtins.int", "builtins.list", "builtins.function", "builtins.type", "builtins.dict", "builtins.str"]
+BUILTIN_NAMES = ["builtins.int", "builtins.list", "builtins.function", "builtins.type", "builtins.dict", "builtins.str",
+                 "builtins.bytes", "builtins.tuple"]
+ALIAS_NAMES = ["typing.Text", "typing.Text", "builtins.str", "builtins.bytes", "typing.Tuple", "typing.ByteString", "types.FunctionType",
+               "handlers_world.ATextAlias", "handlers_world.ABytesAlias", "handlers_world.AnIntAlias", "handlers_world.ATupleAlias"]
 FOREIGN_NAMES = ["canary.Foo", "os.system", "builtins.eval", "c07canmod_a.Boom", "x", ""]
 ATTR_NAMES = ["x", "exposed_x", "only", "exposed_only", "m", "exposed_m", "self", "pub", "pub_m", "_priv", "secret", "secret_m",
               "poke", "state", "__dunder_secret__", "__class__", "__dict__", "__init__", "__getattribute__", "__call__",
@@ -914,6 +950,72 @@ class Gen:
             out.append(("v", (1, self.seq + 100, (h, args))))
         return out
 
+    def alias_name_burst(self):
+        """the attribute NAME (or CMP operator, or old-slicing method name) by reference: a REMOTE_REF whose class name the
+        serving process resolves to str / bytes / int / tuple, followed by the answers a peer would give when asked to
+        stand in for the name - harmless while the name is being checked, a denied name when it is used"""
+        r = self.r
+        ids = [i for i in self.held if type(i) is tuple and len(i) == 3]
+        if not ids:
+            return self.fetch_burst()
+        nxt = len(self.out_seqs)
+        target = r.choice(ids)
+        is_root = target[0].endswith("CanarySvc")
+        evil = (4, (r.choice(ALIAS_NAMES), r.below(50) + 100, r.choice([1, 2, 7])))
+        self.seq += 1
+        h = r.choice([4, 4, 8, 8, 5, 6, 11, 18])
+        o = (3, target)
+        if h == 4 or h == 5:
+            items = [o, evil]
+        elif h == 6:
+            items = [o, evil, (1, 0)]
+        elif h == 8:
+            items = [o, evil, (1, ()), (1, ())]
+        elif h == 11:
+            items = [o, (1, 0), evil]
+        else:
+            items = [o, evil, evil if r.chance(1, 2) else (1, "__getitem__"), (1, 0), (1, 1), (1, ())]
+        out = [("v", (1, self.seq + 100, (h, (2, tuple(items)))))]
+        good = "exposed_val" if is_root else "exposed_x"
+        denied = r.choice(["secret", "poke", "secret_call", "_hidden"] if is_root else ["secret", "poke", "_priv", "secret_m", "pub_m"])
+        methods = (("startswith", ""), ("__radd__", ""), ("decode", ""), ("__add__", ""), ("encode", ""))
+        script = [(1, methods), (1, False), (1, 987654321 + r.below(1000)), (1, good), (1, denied), (1, denied), (1, ())]
+        if r.chance(1, 4):
+            script = [(1, methods), (1, r.choice([True, "exposed_x", 5])), (1, r.below(100)), (1, denied), (1, good)]
+        k = nxt
+        if evil[1][0].startswith("builtins."):
+            script = script[1:]                 # a builtin class name: the server does not ask for the methods
+        for body in script:
+            out.append(("v", (2, k, body)))
+            k += 1
+        return out
+
+    def views_burst(self):
+        """fetch the restricted views the service hands out and try to read, write and delete through them"""
+        r = self.r
+        if not self.held:
+            return self.fetch_burst()
+        root = (3, self.held[0])
+        out = []
+        views = [i for i in self.held if type(i) is tuple and len(i) == 3 and type(i[0]) is str and i[0].endswith("Restricted")]
+        if len(views) < 2 or r.chance(1, 4):
+            for k in r.shuffle([0, 1, 2, 3])[:r.range(2, 4)]:
+                self.seq += 1
+                out.append(("v", (1, self.seq + 100, (8, (2, (root, (1, "view"), (1, (k,))))))))
+            return out
+        for _ in range(r.range(2, 4)):
+            v = (3, r.choice(views))
+            n = (1, r.choice(VIEW_NAMES + ["secret", "tag", "__dict__"]))
+            self.seq += 1
+            k = r.below(6)
+            if k < 3:
+                out.append(("v", (1, self.seq + 100, (6, (2, (v, n, (1, r.choice([0, "overwritten", 10 ** 9]))))))))
+            elif k == 3:
+                out.append(("v", (1, self.seq + 100, (5, (2, (v, n))))))
+            else:
+                out.append(("v", (1, self.seq + 100, (4, (2, (v, n))))))
+        return out
+
     def readwrite_burst(self):
         """read an exposed / safe name on a held canary, then write / delete / call the SAME name on the same object or on
         another held object of the same class (setattr and delattr are off by default: the statement wants refusals)"""
@@ -968,6 +1070,10 @@ class Gen:
 
     def hostile_burst(self):
         r = self.r
+        if self.held and r.chance(1, 8):
+            return self.alias_name_burst()
+        if self.held and r.chance(1, 9):
+            return self.views_burst()
         if self.held and r.chance(1, 7):
             return self.readwrite_burst()
         if self.held and r.chance(1, 9):
